@@ -240,16 +240,17 @@ def rf16d(run):
             if c == '(item->item_type == %s)' % kind and B.succs[0] is not None:
                 kinds += 1
                 t = B.succs[0]
-                # end of the branch: the loop step (first block reachable from both edges of this test)
                 me = B.id
                 noret = {b for b in cfg.blocks if cfg.blocks[b].noreturn}
-                other = cfg.reachable_from(B.succs[1], avoid=lambda b: b == me) if B.succs[1] is not None else set()
-                mine = cfg.reachable_from(t, avoid=lambda b: b == me or b in noret)
-                joins = mine & other
+                # the end of the branch is the step of the enclosing item loop:  item = DLIST_NEXT (…, item)
+                steps = rf_flow.blocks_with(cfg, lambda x: x['k'] == 'BinaryOperator' and x['op'] == '=' and F.src(F.strip(x['c'][0])) == 'item'
+                                            and 'next' in F.src(F.strip(x['c'][1])))
+                kind_tests = {b.id for b in cfg.blocks.values() if b.cond is not None and 'item->item_type ==' in F.src(F.strip(b.cond))}
                 for nm, st in (('addr', addr_st), ('ref_def', ref_st)):
-                    inbranch = (st & mine) - other
-                    seen = cfg.reachable_from(t, avoid=lambda b: b in inbranch or b in noret or b == me)
-                    ok = bool(inbranch) and not (seen & joins)
+                    seen = cfg.reachable_from(t, avoid=lambda b: b in st or b in noret or (b in kind_tests and b != t) or b in steps and False)
+                    reached_step = bool(seen & steps)
+                    has = bool(st & cfg.reachable_from(t, avoid=lambda b: b in steps))
+                    ok = has and not reached_step
                     run.ob(rule, (kind, nm), ok, {'branch': kind, 'field': 'item->' + nm, 'assigned on every non-error path': ok})
                     if not ok:
                         run.violation(rule, f, '%s branch item->%s' % (kind, nm),
@@ -257,16 +258,38 @@ def rf16d(run):
                                       'bound to a previous definition)' % (kind, nm), line=B.cond['l'])
     if kinds != 3:
         run.analysis_broken(rule, 'MIR_link: %d of the 3 item-kind branches recognised' % kinds)
+    # the entry an item is bound to comes from a look-up in the item table on every path (not from a field that an earlier,
+    # possibly not yet linked, declaration left behind)
+    lookups = rf_flow.blocks_with(cfg, lambda x: x['k'] == 'BinaryOperator' and x['op'] == '=' and F.src(F.strip(x['c'][0])) == 'tab_item'
+                                  and F.strip(x['c'][1])['k'] == 'CallExpr' and F.strip(x['c'][1]).get('callee') == 'item_tab_find')
+    others = rf_flow.blocks_with(cfg, lambda x: x['k'] == 'BinaryOperator' and x['op'] == '=' and F.src(F.strip(x['c'][0])) == 'tab_item'
+                                 and not (F.strip(x['c'][1])['k'] == 'CallExpr' and F.strip(x['c'][1]).get('callee') == 'item_tab_find'))
+    ok = bool(lookups) and not others
+    run.ob(rule, ('lookup-provenance',), ok, {'tab_item assigned from item_tab_find in blocks': sorted(lookups), 'from something else in': sorted(others)})
+    if not ok:
+        run.violation(rule, f, 'provenance of tab_item', 'MIR_link binds an import/export/forward to an entry that does not come from '
+                      'item_tab_find on every path (tab_item is also assigned from another source): the entry may be a declaration that '
+                      'has not been linked yet, whose addr is still NULL', line=f.line)
     # unresolved import: error reachable, and MIR_load_external before re-lookup
     le = calls_in(cfg, 'MIR_load_external')
     run.ob(rule, ('resolver-load',), bool(le), {'MIR_load_external called on resolver success': bool(le)})
     if not le:
         run.violation(rule, f, 'resolver path', 'MIR_link no longer registers the address returned by the import resolver', line=f.line)
-    errs = [b for b in cfg.blocks if cfg.blocks[b].noreturn]
-    run.ob(rule, ('error-exits',), len(errs) >= 3, {'error call sites': len(errs)})
-    if len(errs) < 3:
-        run.violation(rule, f, 'undefined item errors', 'MIR_link has %d error exits; import, export and forward of an undefined item must '
-                      'each be reported' % len(errs), line=f.line)
+    # each of the three kinds can end in the error callback (undefined item)
+    noret = {b for b in cfg.blocks if cfg.blocks[b].noreturn}
+    kind_tests = {b.id for b in cfg.blocks.values() if b.cond is not None and 'item->item_type ==' in F.src(F.strip(b.cond))}
+    for B in cfg.blocks.values():
+        if B.cond is None:
+            continue
+        c = F.src(F.strip(B.cond))
+        for kind in ('MIR_import_item', 'MIR_export_item', 'MIR_forward_item'):
+            if c == '(item->item_type == %s)' % kind and B.succs[0] is not None:
+                t = B.succs[0]
+                ok = bool(noret & cfg.reachable_from(t, avoid=lambda b: b in kind_tests and b != t))
+                run.ob(rule, (kind, 'error-exit'), ok)
+                if not ok:
+                    run.violation(rule, f, '%s undefined-item error' % kind, 'MIR_link: the %s branch cannot reach the error callback: an '
+                                  'undefined item is no longer reported' % kind, line=B.cond['l'])
 
 
 def rf16e(run):
@@ -293,6 +316,16 @@ def rf16e(run):
         if not v:
             run.violation(rule, f, 'redefinition guard: %s' % k,
                           'the "prohibited for redefinition" error of MIR_load_module is no longer conditional on [%s]' % k, line=f.line)
+    # no additional guard may weaken the rejection
+    extra = [c for c, t in conds if t and not (c.startswith('setup_global(') or 'item_type == MIR_func_item' in c or
+                                                 'func_redef_permission_p' in c or 'export_p' in c or c in ('(item != 0)', 'item') or
+                                                 '__darwin' in c or 'strncmp' in c)]
+    extra += [c for c, t in conds if (not t) and 'func_redef_permission_p' not in c]
+    run.ob(rule, ('no-extra-guard',), not extra, {'additional conditions on the error': extra})
+    if extra:
+        run.violation(rule, f, 'additional guard on the redefinition error',
+                      'the "prohibited for redefinition" error is additionally conditional on [%s]: a second exported function of the '
+                      'same name is accepted whenever that condition is false' % '; '.join(x[:60] for x in extra), line=f.line)
     # the global table is updated for every exported item: setup_global is called under export_p only
     sg = calls_in(cfg, 'setup_global')
     run.ob(rule, ('setup-global-called',), bool(sg))
